@@ -17,8 +17,10 @@ pub enum Op {
     SetMark,
     More,
     CheckIo,
+    /// set_chunk_size in the middle of a history
+    Chunk(usize),
 }
-pub const OPS: &[Op] = &[Op::Req(0), Op::Req(1), Op::Req(2), Op::Req(3), Op::Req(5), Op::Req(9), Op::ByteAt(0), Op::ByteAt(1), Op::ByteAt(4), Op::Adv(1), Op::Adv(2), Op::Adv(3), Op::AdvAll, Op::AdvTooFar, Op::SetMark, Op::More, Op::CheckIo];
+pub const OPS: &[Op] = &[Op::Req(0), Op::Req(1), Op::Req(2), Op::Req(3), Op::Req(5), Op::Req(9), Op::ByteAt(0), Op::ByteAt(1), Op::ByteAt(4), Op::Adv(1), Op::Adv(2), Op::Adv(3), Op::AdvAll, Op::AdvTooFar, Op::SetMark, Op::More, Op::CheckIo, Op::Chunk(64), Op::Chunk(1), Op::Adv(12)];
 
 #[derive(Clone, Copy, Debug)]
 pub struct Cfg {
@@ -48,6 +50,7 @@ fn op_code(o: &Op) -> String {
         Op::SetMark => "m".into(),
         Op::More => "M".into(),
         Op::CheckIo => "c".into(),
+        Op::Chunk(n) => format!("k{}", n),
     }
 }
 fn op_str(ops: &[Op]) -> String {
@@ -61,6 +64,7 @@ fn op_str(ops: &[Op]) -> String {
             Op::SetMark => "m".into(),
             Op::More => "M".into(),
             Op::CheckIo => "c".into(),
+            Op::Chunk(n) => format!("k{}", n),
         })
         .collect::<Vec<_>>()
         .join(",")
@@ -78,6 +82,7 @@ fn parse_ops(s: &str) -> Vec<Op> {
                 "X" => Op::AdvTooFar,
                 "m" => Op::SetMark,
                 "M" => Op::More,
+                "k" => Op::Chunk(n()),
                 _ => Op::CheckIo,
             }
         })
@@ -125,6 +130,8 @@ fn run_seq_inner(cfg: Cfg, ops: &[Op], prop: &str) -> Option<(String, String)> {
             }
             r
         }
+        // both plain constructors: the boxed one for the configurations with interrupted reads
+        None if cfg.sched.interrupt != 0 => DeferredReader::from_boxed_dyn_read(Box::new(src)),
         None => DeferredReader::from_read(src),
     };
     reader.set_chunk_size(cfg.sched.chunk);
@@ -141,6 +148,10 @@ fn run_seq_inner(cfg: Cfg, ops: &[Op], prop: &str) -> Option<(String, String)> {
             if c02 {
                 if reader.position() != pos {
                     bad!("C02 position equals the number of bytes advanced over", "after {}: position() = {}, advanced over {}", $after, reader.position(), pos);
+                }
+                // buf_ptr() points at the same buf_len() bytes as buf()
+                if unsafe { std::slice::from_raw_parts(reader.buf_ptr(), reader.buf_len()) } != &b[..] && reader.buf_len() == b.len() {
+                    bad!("C02 the exposed bytes are the next bytes of the source", "after {}: buf_ptr() does not point at the bytes of buf()", $after);
                 }
                 if reader.buf_len() != b.len() {
                     bad!("C02 buf_len is the length of the exposed data", "after {}: buf_len() = {}, buf().len() = {}", $after, reader.buf_len(), b.len());
@@ -198,6 +209,17 @@ fn run_seq_inner(cfg: Cfg, ops: &[Op], prop: &str) -> Option<(String, String)> {
                         _ => {}
                     }
                 }
+                if k == 0 {
+                    // request_byte() is request_byte_at_offset(0): the byte is buffered now (or the end is known), so it agrees without a read
+                    let calls1 = m.calls.get();
+                    let again = reader.request_byte();
+                    if c02 && again != got {
+                        bad!("C02 the exposed bytes are the next bytes of the source", "{}: request_byte() = {:?} after request_byte_at_offset(0) = {:?}", what, again, got);
+                    }
+                    if c09 && m.calls.get() != calls1 && (got.is_some() || m.calls_after_end.get() > 0) {
+                        bad!("C09 no read when the buffered data satisfies the request", "{}: request_byte() called the source although the byte was buffered", what);
+                    }
+                }
                 if c09 && before.len() > k && m.calls.get() != calls0 {
                     bad!("C09 no read when the buffered data satisfies the request", "{}: {} bytes were buffered, {} calls of the source", what, before.len(), m.calls.get() - calls0);
                 }
@@ -231,7 +253,13 @@ fn run_seq_inner(cfg: Cfg, ops: &[Op], prop: &str) -> Option<(String, String)> {
                 }
             }
             Op::SetMark => {
-                reader.set_mark();
+                // the two ways of marking the current position (alternating, `state!` checks mark() afterwards)
+                if i % 2 == 0 {
+                    reader.set_mark();
+                } else {
+                    let p = reader.position();
+                    reader.set_mark_to_position(p);
+                }
                 mark = pos;
             }
             Op::More => {
@@ -248,6 +276,16 @@ fn run_seq_inner(cfg: Cfg, ops: &[Op], prop: &str) -> Option<(String, String)> {
                 }
                 if c02 && !r && !m.ended.get() {
                     bad!("C02 a request falls short only when the source ended or failed", "{}: request_more() = false although the source has not ended", what);
+                }
+            }
+            Op::Chunk(n) => {
+                // changes how much later refills may read; what is buffered, position, mark and flags stay (checked by `state!`)
+                reader.set_chunk_size(n);
+                if c09 && m.calls.get() != calls0 {
+                    bad!("C09 no read without a refill request", "{}: set_chunk_size called the source", what);
+                }
+                if c02 && reader.buf_len() != before.len() {
+                    bad!("C02 buffered data is not lost", "{}: {} bytes buffered before, {} after", what, before.len(), reader.buf_len());
                 }
             }
             Op::CheckIo => {
@@ -354,7 +392,9 @@ pub fn suite(prop: &str, tier: &str, seed: u64) -> Report {
                         break;
                     }
                     k -= 1;
-                    if idx[k] + 1 < OPS.len() {
+                    // sequences of 5 (thorough) are enumerated over the first 17 operations only; the three added later
+                    // (set_chunk_size 64/1, advance 12) take part in every sequence of up to 4 and in the seeded long ones
+                    if idx[k] + 1 < (if idx.len() > 4 { 17 } else { OPS.len() }) {
                         idx[k] += 1;
                         for j in k + 1..idx.len() {
                             idx[j] = 0;
@@ -405,7 +445,7 @@ pub fn suite(prop: &str, tier: &str, seed: u64) -> Report {
         }
     }
     rep.bound = format!(
-        "reader: every sequence of up to {} operations out of {} (request 0/1/2/3/5/9, request_byte_at_offset 0/1/4, advance 1/2/3, advance_with_buf(all), advance beyond the data (caught panic), set_mark, request_more, check_io_error) on a 24-byte source under {} configurations (chunk 1/2/4, reads of 1/3/all bytes, no fault / fault at 7 / fault at 0, transient Interrupted, built from a pre-filled BufReader of capacity 1/5/64, empty source), plus seeded sequences of 8..48 operations on a 200-byte source; C10: 1 MiB streamed with 5 chunk/request combinations",
+        "reader: every sequence of up to {} operations out of {} (sequences of 5: out of the first 17; request 0/1/2/3/5/9, request_byte_at_offset 0/1/4 (offset 0 also through request_byte), advance 1/2/3/12, advance_with_buf(all), advance beyond the data (caught panic), set_mark / set_mark_to_position, request_more, check_io_error, set_chunk_size 64/1; buf_ptr compared with buf after every operation; any other panic is a failure) on a 24-byte source under {} configurations (chunk 1/2/4, reads of 1/3/all bytes, no fault / fault at 7 / fault at 0, transient Interrupted, built by from_read / from_boxed_dyn_read / from a pre-filled BufReader of capacity 1/5/64 / from an unused BufReader over a source that delivers, ends or fails at once, empty source), plus seeded sequences of 8..48 operations on a 200-byte source; C10: 1 MiB streamed with 5 chunk/request combinations",
         n,
         OPS.len(),
         cfgs.len()
